@@ -62,6 +62,19 @@ TInsert ==
   /\ Insert(st[Ev.obj], Ev.args, Ev.res, Ev.post)
   /\ SetObj(Ev.obj, Ev.post)
 
+\* an object enters the trace without the C01 certificate (only Levels 1-2 are required): used where
+\* the following events are purely combinatorial
+TAdopt ==
+  /\ IsEvent("Adopt")
+  /\ Level1(Ev.post) /\ Level2(Ev.post)
+  /\ SetObj(Ev.obj, Ev.post)
+
+TInsertCopy ==
+  /\ IsEvent("InsertCopy")
+  /\ st[Ev.obj].live
+  /\ InsertCopy(st[Ev.obj], Ev.args, Ev.res, Ev.post)
+  /\ SetObj(Ev.obj, Ev.post)
+
 TRemove ==
   /\ IsEvent("Remove")
   /\ st[Ev.obj].live
@@ -176,7 +189,7 @@ TRawCheck ==
   /\ UNCHANGED <<st, hl, memo>>
 
 TraceNext ==
-  \/ TRawCall \/ TRawCheck
+  \/ TRawCall \/ TRawCheck \/ TInsertCopy \/ TAdopt
   \/ TFaulted
   \/ TReset \/ TConstruct \/ TInsert \/ TRemove \/ TFlip \/ TRepair \/ TVerdicts
   \/ TEmpty \/ TSetPolicy \/ TLocate \/ THullCreate \/ THullQuery \/ TQueries
